@@ -2,6 +2,7 @@ package clustersim
 
 import (
 	"fmt"
+	"os"
 	"os/exec"
 	"strings"
 	"testing"
@@ -20,44 +21,47 @@ import (
 var Engine = core.Engine{Name: "clustersim", Run: Run}
 
 type cfg struct {
-	machines, replicas int
-	engine             string
-	snapCount, catchup int
-	keepBackup         int
-	clients            int
-	events             int
-	dropPm, dupPm      int
-	reorderPm          int
+	machines, replicas                                                                       int
+	engine                                                                                   string
+	snapCount, catchup                                                                       int
+	keepBackup                                                                               int
+	clients                                                                                  int
+	events                                                                                   int
+	dropPm, dupPm                                                                            int
+	reorderPm                                                                                int
 	wInvoke, wTick, wDeliver, wKill, wRestart, wStop, wTransfer, wPart, wHeal, wSleep, wPark int
-	crashPoint string // C06: named point to kill at ("" = quiescent instants only)
-	crashHit   int
-	optFsync   bool
+	crashPoint                                                                               string // C06: named point to kill at ("" = quiescent instants only)
+	crashAfterSnap                                                                           bool   // ... counting its hits only after a snapshot message reached machine 0
+	crashHit                                                                                 int
+	optFsync                                                                                 bool
 }
 
 type sim struct {
-	c   *core.RunCtx
-	t   *core.Tape
-	cfg cfg
-	cl  *nodeh.Cluster
-	g   *gen
-	seq int64
-	hist []lin.Op
-	pend []*pending // per client, nil = idle
-	blocked map[[2]int]bool
+	c        *core.RunCtx
+	t        *core.Tape
+	cfg      cfg
+	cl       *nodeh.Cluster
+	g        *gen
+	seq      int64
+	hist     []lin.Op
+	pend     []*pending // per client, nil = idle
+	blocked  map[[2]int]bool
 	believed int
 	// C06 crash point machinery
-	pointHits int
-	tripped   bool
-	pointDone bool
-	armed     bool
-	park      *parked
-	releases  []func()
-	killed    int
-	acked     int
-	dumps     []string
-	parkCh    chan struct{}
+	pointHits      int
+	tripped        bool
+	pointDone      bool
+	armed          bool
+	snapSeen       bool
+	ackedAtPrelude int
+	park           *parked
+	releases       []func()
+	killed         int
+	acked          int
+	dumps          []string
+	parkCh         chan struct{}
 	maxAppliedEver uint64
-	unknown   map[string]int
+	unknown        map[string]int
 }
 
 func pick(t *core.Tape, vals ...int) int { return vals[t.Choose(len(vals))] }
@@ -96,7 +100,13 @@ func (s *sim) releaseAll() {
 
 var crashPoints = []string{"", "raft.ready.begin", "raft.beforePersist", "raft.beforePublish", "raft.afterPublish", "raft.afterPersist",
 	"raft.persist.beforeSave", "raft.beforeAppend", "raft.beforeAdvance", "apply.beforeApplyAll", "apply.afterApplyAll",
-	"apply.beforeTriggerSnapshot", "snap.beforeCreate", "snap.beforeSaveSnap", "snap.beforeSync", "snap.beforeRelease", "snap.beforeCompact"}
+	"apply.beforeTriggerSnapshot", "snap.beforeCreate", "snap.beforeSaveSnap", "snap.beforeSync", "snap.beforeRelease", "snap.beforeCompact",
+	"raft.snap.beforeSync", "raft.snap.beforeRelease"}
+
+// the points of the raft loop between receiving a Ready and advancing: armed
+// "after an incoming snapshot" they fall into the Ready that records it
+var afterSnapPoints = []string{"raft.beforePersist", "raft.persist.beforeSave", "raft.afterPersist", "raft.snap.beforeSync",
+	"raft.snap.beforeRelease", "raft.beforeAppend", "raft.beforeAdvance", "apply.beforeApplyAll", "apply.afterApplyAll"}
 
 func drawCfg(c *core.RunCtx) cfg {
 	t := c.Tape
@@ -139,6 +149,20 @@ func drawCfg(c *core.RunCtx) cfg {
 			g.crashHit = 1 + t.Choose(4)
 		}
 		g.wKill = pick(t, 0, 1, 2)
+		if afterSnap := t.Choose(3) == 0; (g.machines > 1 && afterSnap) || os.Getenv("CLUSTERSIM_FORCE_AFTERSNAP") != "" {
+			if g.machines == 1 {
+				g.machines, g.replicas = 3, 3
+			}
+			// the rare window: machine 0 is recording a snapshot sent by its leader
+			g.crashAfterSnap = true
+			g.crashPoint = afterSnapPoints[t.Choose(len(afterSnapPoints))]
+			g.crashHit = pick(t, 1, 1, 1, 2)
+			g.wKill = 1
+			g.snapCount = 5
+			if g.events < 800 {
+				g.events = 800
+			}
+		}
 		if g.machines == 1 {
 			g.dropPm, g.dupPm, g.wPart, g.wTransfer = 0, 0, 0, 0
 		}
@@ -248,7 +272,7 @@ func (s *sim) bubble() (final []lin.Op, mismatch string) {
 	s.pend = make([]*pending, g.clients)
 	if g.crashPoint != "" {
 		cl.OnPoint = func(name string, gid, rid uint64) {
-			if name == g.crashPoint && s.armed && !s.tripped && !s.pointDone && !cl.Stopping && rid == nodeh.ReplicaID(0, 0) && cl.M[0].Up {
+			if name == g.crashPoint && s.armed && (!g.crashAfterSnap || s.snapSeen) && !s.tripped && !s.pointDone && !cl.Stopping && rid == nodeh.ReplicaID(0, 0) && cl.M[0].Up {
 				s.pointHits++
 				if s.pointHits == g.crashHit {
 					s.tripped = true
@@ -267,6 +291,13 @@ func (s *sim) bubble() (final []lin.Op, mismatch string) {
 	}
 	s.believed = cl.Leader(0)
 	s.armed = true // crash points count from here on (no faults during boot)
+	if g.crashAfterSnap && cl.M[0].Up {
+		// machine 0 goes down right away so that it needs a snapshot when it returns
+		c.Fault("kill")
+		c.Log("kill", "m0 (prelude)")
+		s.kill(cl.M[0])
+		s.ackedAtPrelude = s.acked
+	}
 	w := []int{g.wInvoke, g.wTick, g.wDeliver, g.wKill, g.wRestart, g.wStop, g.wTransfer, g.wPart, g.wHeal, g.wSleep, g.wPark}
 	defer s.releaseAll()
 	ev := 0
@@ -280,6 +311,9 @@ func (s *sim) bubble() (final []lin.Op, mismatch string) {
 		if s.tripped && cl.M[0].Up {
 			// C06: the armed crash point was reached: kill -9 now
 			c.Fault("kill_at_point")
+			if g.crashAfterSnap {
+				c.Fault("kill_at_point_after_incoming_snapshot")
+			}
 			c.Log("kill-at-point", "%s hit %d", g.crashPoint, g.crashHit)
 			s.kill(cl.M[0])
 			s.tripped = false
@@ -541,6 +575,10 @@ func (s *sim) event(kind int) {
 		s.kill(m)
 	case 4: // restart
 		for _, m := range cl.M {
+			if !m.Up && m.Idx == 0 && s.cfg.crashAfterSnap && !s.snapSeen && s.acked-s.ackedAtPrelude < 2*s.cfg.snapCount+s.cfg.catchup {
+				// stays away until the others have compacted their logs
+				continue
+			}
 			if !m.Up {
 				c.Log("restart", "m%d", m.Idx)
 				if err := cl.Restart(m); err != nil {
@@ -557,6 +595,11 @@ func (s *sim) event(kind int) {
 		m := ups[t.Choose(len(ups))]
 		if s.park != nil && s.park.machine == m.Idx {
 			s.releasePark("graceful stop")
+		}
+		if s.tripped && m.Idx == 0 {
+			// the released thread ran into the armed crash point: the kill (end
+			// of this event) comes first, there is nothing left to stop
+			return
 		}
 		c.Fault("stop_graceful")
 		c.Log("stop", "m%d", m.Idx)
@@ -699,6 +742,12 @@ func (s *sim) deliverOne() {
 			cl.ReportSnap(m, false)
 		}
 		return
+	}
+	if m.Snap {
+		c.Probe("snapshot_message_delivered")
+		if to == 0 {
+			s.snapSeen = true // (C06) crash points armed "after an incoming snapshot" count from here
+		}
 	}
 	ok := cl.Deliver(m)
 	c.Log("deliver", "m%d->m%d %v t=%d i=%d n=%d ok=%v", m.From, to, m.M.Type, m.M.Term, m.M.Index, len(m.M.Entries), ok)
